@@ -9,16 +9,6 @@ import (
 
 // features filled in by later tiers
 
-func (e *Engine) makeChan(st *State, fr *Frame, x *ssa.MakeChan) Val { panic(unsupported("make chan")) }
-func (e *Engine) chanLen(st *State, c Val) Term                      { panic(unsupported("len(chan)")) }
-func (e *Engine) chanClose(st *State, fr *Frame, c Val, pos string)  { panic(unsupported("close")) }
-func (e *Engine) execRecv(st *State, fr *Frame, x *ssa.UnOp, c Val)  { panic(unsupported("channel receive")) }
-func (e *Engine) execSend(st *State, fr *Frame, x *ssa.Send, pos string) {
-	panic(unsupported("channel send"))
-}
-func (e *Engine) execSelect(st *State, fr *Frame, x *ssa.Select, k callCont) {
-	panic(unsupported("select"))
-}
 func (e *Engine) execGo(st *State, fr *Frame, g *ssa.Go) { panic(unsupported("go statement")) }
 
 func (e *Engine) checkSharedWrite(st *State, fr *Frame, loc *Loc, pos string) {
